@@ -891,9 +891,15 @@ func recovery(inner http.Handler, d Diagnostic) http.Handler {
 	return http.HandlerFunc(func(w http.ResponseWriter, r *http.Request) {
 		start := time.Now()
 		l := &responseLogger{w: w}
+		defer func() {
+			if err := recover(); err != nil {
+				if l.status == 0 {
+					// nothing has been sent yet: answer the request
+					HttpError(l, fmt.Sprintf("%v", err), false, http.StatusInternalServerError)
+				}
+				buildLogLineError(d, l, r, start, fmt.Sprintf("%v", err))
+			}
+		}()
 		inner.ServeHTTP(l, r)
-		if err := recover(); err != nil {
-			buildLogLineError(d, l, r, start, fmt.Sprintf("%v", err))
-		}
 	})
 }
